@@ -38,12 +38,18 @@ Theorem C03_change_class_total :
     exists s', change_class_k vnone h s new = Ok s'.
 Proof. exact @change_class_k_ok. Qed.
 
+(** all hypotheses of the three widening theorems on a 5-D header, the computed results, and the den equation *)
 Example C03_change_class_nonvacuous :
-  let h := mk_hdr [2; 2; 2; 2; 2] (Some 2) id_aff true true in
-  hdr_ok h /\ good_k h (Some (TSlices, [JInt 1; JInt 2])) /\ class_ok (shape h) VSlices = true /\
-  change_class_k JNull h (Some (TSlices, [JInt 1; JInt 2])) VSlices =
-    Ok (Some (VSlices, [JInt 1; JInt 2; JInt 1; JInt 2])).
-Proof. exact ex_widen. Qed.
+  hdr_ok exw_hdr /\ good_k exw_hdr exw_s /\ class_ok (shape exw_hdr) VSlices = true /\
+  (is_slices VSlices = true -> sdim exw_hdr <> None) /\
+  has_base exw_hdr (base_of VSlices) = true /\ widens (kst_class exw_s) VSlices /\
+  changed_class JNull exw_hdr exw_s VSlices None = Ok [JInt 1; JInt 2; JInt 1; JInt 2] /\
+  length [JInt 1; JInt 2; JInt 1; JInt 2] = mult_spec (dims exw_hdr) VSlices /\
+  change_class_k JNull exw_hdr exw_s VSlices = Ok (Some (VSlices, [JInt 1; JInt 2; JInt 1; JInt 2])) /\
+  good_k exw_hdr (Some (VSlices, [JInt 1; JInt 2; JInt 1; JInt 2])) /\
+  den_k JNull exw_hdr (Some (VSlices, [JInt 1; JInt 2; JInt 1; JInt 2])) (1, 1, 0) = JInt 2 /\
+  den_k JNull exw_hdr exw_s (1, 1, 0) = JInt 2.
+Proof. exact ex_widen_full. Qed.
 
 (** 2. One [_insert] step along the slice, time or vector axis: the accumulated result denotes inputs
     0..j-1 before and inputs 0..j afterwards, and stays well formed. *)
@@ -62,10 +68,19 @@ Theorem C03_insert_k_den :
         else den_k vnone ho (drop_k (use_slices hfull ho) ko) (set_coord ax p 0).
 Proof. exact @insert_k_den. Qed.
 
+(** one step of a 5-D merge along the slice axis (T = V = 2): self holds input 0 (j = 1), other is input 1;
+    every hypothesis, the computed [insert_k], and the den equation before and at position j *)
 Example C03_insert_k_nonvacuous :
-  exists hfull, merge_hdr (map (@hdr_of jv) ex5_es) 2 None None = Ok hfull /\
-                frame hfull [2; 2; 1; 2; 2] 2 2 /\ sdim hfull = Some 2.
-Proof. exact ex5_frame. Qed.
+  frame ex5_full [2; 2; 1; 2; 2] 2 2 /\ inp ex5_full [2; 2; 1; 2; 2] ex5_hdr /\ 1 <= 1 /\
+  axis_of (sdim ex5_full) 2 = Some AxS /\ (3 <= 2 -> sdim ex5_full <> None) /\
+  good_k (with_dim ex5_full 2 1) ex5_ks /\ good_k ex5_hdr ex5_ko /\
+  insert_k jv_eqb JNull (with_dim ex5_full 2 1) ex5_hdr 2 ex5_ks ex5_ko = Ok ex5_ks' /\
+  good_k (with_dim ex5_full 2 2) ex5_ks' /\
+  den_k JNull (with_dim ex5_full 2 2) ex5_ks' (0, 1, 1) = JInt 13 /\
+  den_k JNull (with_dim ex5_full 2 1) ex5_ks (0, 1, 1) = JInt 13 /\
+  den_k JNull (with_dim ex5_full 2 2) ex5_ks' (1, 1, 1) = JInt 23 /\
+  den_k JNull ex5_hdr (drop_k (use_slices ex5_full ex5_hdr) ex5_ko) (set_coord AxS (1, 1, 1) 0) = JInt 23.
+Proof. exact ex5_step. Qed.
 
 (** 3. Merging along the slice, time or vector axis is concatenation: position i on the merge axis of the
     result reads input i (keys missing from an input denote [vnone] there; an input whose slice normal differs
@@ -88,14 +103,21 @@ Theorem C03_merge_den :
       den vnone r k p = den_in vnone (hdr_of r) (nth (coord ax p) es e0) k (set_coord ax p 0).
 Proof. exact @merge_den. Qed.
 
+(** a 5-D merge along the slice axis with T = V = 2 (per-volume interleave): every hypothesis, the computed
+    result, and the den equation at a position of input 0 and at a position of input 1 *)
 Example C03_merge_den_nonvacuous :
   inputs_ok ex5_es (ex5_in 10) None /\
+  from_sequence jv_eqb JNull ex5_es 2 None None = Ok ex5_r /\
   axis_of (out_sdim None (ex5_in 10)) 2 = Some AxS /\
-  exists r, from_sequence jv_eqb JNull ex5_es 2 None None = Ok r /\
-            shape (hdr_of r) = [2; 2; 2; 2; 2] /\ trailing1b (shape (hdr_of r)) = false /\
-            lookup_e r kA = Some (GSlices, [JInt 10; JInt 20; JInt 11; JInt 21; JInt 12; JInt 22; JInt 13; JInt 23]) /\
-            den JNull r kA (1, 1, 1) = JInt 23 /\ den JNull (ex5_in 20) kA (0, 1, 1) = JInt 23.
-Proof. split; [exact ex5_inputs|]. split; [reflexivity | exact ex5_result]. Qed.
+  (3 <= 2 -> out_sdim None (ex5_in 10) <> None) /\
+  trailing1b (shape (hdr_of ex5_r)) = false /\
+  validb ex5_r = true /\
+  in_dims (dims (hdr_of ex5_r)) (0, 1, 1) /\ in_dims (dims (hdr_of ex5_r)) (1, 1, 1) /\
+  den JNull ex5_r kA (0, 1, 1) = JInt 13 /\
+  den_in JNull (hdr_of ex5_r) (nth (coord AxS (0, 1, 1)) ex5_es (ex5_in 10)) kA (set_coord AxS (0, 1, 1) 0) = JInt 13 /\
+  den JNull ex5_r kA (1, 1, 1) = JInt 23 /\
+  den_in JNull (hdr_of ex5_r) (nth (coord AxS (1, 1, 1)) ex5_es (ex5_in 10)) kA (set_coord AxS (1, 1, 1) 0) = JInt 23.
+Proof. exact ex5_merge_full. Qed.
 
 (** 4. Merging along a non-slice spatial axis keeps exactly the keys on which all inputs agree at every
     position, with their values unchanged; a key on which some input disagrees denotes [vnone] everywhere. *)
@@ -120,12 +142,19 @@ Theorem C03_nonslice :
        forall p, in_dims (dims (hdr_of r)) p -> den vnone r k p = vnone).
 Proof. exact @merge_nonslice. Qed.
 
+(** a merge along the non-slice axis 0: key a agrees in both inputs and is kept with its values, key b
+    (constants 7 / 8) disagrees and denotes None in the result *)
 Example C03_nonslice_nonvacuous :
   inputs_ok [exn_in 7; exn_in 8] (exn_in 7) None /\
-  exists r, from_sequence jv_eqb JNull [exn_in 7; exn_in 8] 0 None None = Ok r /\
-            shape (hdr_of r) = [2; 2; 2; 2] /\ trailing1b (shape (hdr_of r)) = false /\
-            lookup_e r kA = Some (TSlices, [JInt 1; JInt 2]) /\ lookup_e r kB = None.
-Proof. split; [exact exn_inputs | exact exn_result]. Qed.
+  from_sequence jv_eqb JNull [exn_in 7; exn_in 8] 0 None None = Ok exn_r /\
+  0 < 3 /\ out_sdim None (exn_in 7) <> Some 0 /\
+  trailing1b (shape (hdr_of exn_r)) = false /\
+  in_dims (dims (hdr_of exn_r)) (1, 1, 0) /\
+  den_in JNull (hdr_of exn_r) (exn_in 8) kA (1, 1, 0) = den_in JNull (hdr_of exn_r) (exn_in 7) kA (1, 1, 0) /\
+  den JNull exn_r kA (1, 1, 0) = JInt 2 /\ den_in JNull (hdr_of exn_r) (exn_in 7) kA (1, 1, 0) = JInt 2 /\
+  den_in JNull (hdr_of exn_r) (exn_in 8) kB (1, 1, 0) <> den_in JNull (hdr_of exn_r) (exn_in 7) kB (1, 1, 0) /\
+  den JNull exn_r kB (1, 1, 0) = JNull.
+Proof. exact exn_full. Qed.
 
 (** 5. On the domain [from_sequence] never fails, and it refuses (ValueError) exactly a merge axis that is
     present and not singular, or [dim >= 5]. *)
@@ -153,12 +182,30 @@ Theorem C03_refuses :
      (5 <= dim \/ nth dim (shape (hdr_of e0)) 1 <> 1)).
 Proof. exact @merge_refuses. Qed.
 
+(** every hypothesis of [C03_total] for a time merge of three 3-D inputs (with the computed result), and a
+    refused merge (the slice axis of the inputs has extent 2) for [C03_refuses] *)
 Example C03_total_nonvacuous :
-  inputs_ok [ex3_in 1; ex3_in 5; ex3_in 1] (ex3_in 1) None /\
+  inputs_ok [ex3_in 1; ex3_in 5; ex3_in 1] (ex3_in 1) None /\ args_ok None None /\
+  3 < 5 /\ nth 3 (shape (hdr_of (ex3_in 1))) 1 = 1 /\
+  ~ (3 = 4 /\ length (shape (hdr_of (ex3_in 1))) = 4 /\ nth 3 (shape (hdr_of (ex3_in 1))) 1 = 1) /\
+  (3 <= 3 -> out_sdim None (ex3_in 1) <> None) /\
+  (forall sh, set_nth 3 (length [ex3_in 1; ex3_in 5; ex3_in 1]) (pad_to 4 (shape (hdr_of (ex3_in 1)))) = Some sh ->
+              trailing1b sh = false) /\
   (exists r, from_sequence jv_eqb JNull [ex3_in 1; ex3_in 5; ex3_in 1] 3 None None = Ok r /\
              shape (hdr_of r) = [2; 2; 2; 3] /\ den JNull r kA (1, 1, 0) = JInt 6) /\
+  inputs_ok [ex3_in 1; ex3_in 5] (ex3_in 1) None /\ nth 2 (shape (hdr_of (ex3_in 1))) 1 <> 1 /\
   from_sequence jv_eqb JNull [ex3_in 1; ex3_in 5] 2 None None = Err EValue.
-Proof. split; [exact ex3_inputs|]. split; [exact ex3_time | exact ex_refused]. Qed.
+Proof. exact ex3_total_full. Qed.
+
+Example C03_refuses_nonvacuous :
+  inputs_ok [ex3_in 1; ex3_in 5] (ex3_in 1) None /\ args_ok None None /\
+  ~ (2 = 4 /\ length (shape (hdr_of (ex3_in 1))) = 4 /\ nth 3 (shape (hdr_of (ex3_in 1))) 1 = 1) /\
+  (3 <= 2 -> out_sdim None (ex3_in 1) <> None) /\
+  (forall sh, set_nth 2 (length [ex3_in 1; ex3_in 5]) (pad_to 3 (shape (hdr_of (ex3_in 1)))) = Some sh ->
+              trailing1b sh = false) /\
+  from_sequence jv_eqb JNull [ex3_in 1; ex3_in 5] 2 None None = Err EValue /\
+  (5 <= 2 \/ nth 2 (shape (hdr_of (ex3_in 1))) 1 <> 1).
+Proof. exact ex3_refuses_full. Qed.
 
 (** 6. Why the hypotheses N1 / N3 / N4 are there: dropping any one of them makes totality false of the model,
     which reproduces the exceptions of the open findings. *)
